@@ -73,6 +73,9 @@ func govalDeviation(gc govalCase, msg string) string {
 		return false
 	}
 	switch {
+	case has("edge"):
+		// every failure of a value that holds a types.Edge: its end-container event is never emitted
+		return "edge-value-without-end"
 	case has("[]bool", "[3]bool") && strings.Contains(msg, "boolBuilder"):
 		return "bool-array-not-buildable"
 	case (has("[]int;", "[]uint;", "[3]int;", "[3]uint;", "[]int}", "[]uint}", "[3]int}", "[3]uint}") || strings.HasSuffix(s, "]int") || strings.HasSuffix(s, "]uint")) &&
